@@ -41,7 +41,10 @@ META = {
         "attributes whose payload holds objects with hand-written __eq__/__hash__ other than FloatData, raw Python "
         "floats, IntEnum/Flag members (reported as 'unencodable', still covered by the direct oracle); ops with "
         "regions in the OperationInfo leg (structural equivalence is C03); contexts with dynamically registered "
-        "IRDL dialects."
+        "IRDL dialects. Additional direct checks per generated attribute: hash()/== must not raise, no payload container may be a "
+        "bytearray/list/dict/set, and a FloatAttr must hold type.unpack(type.pack(parameter)) recomputed without shared state "
+        "(history independence of construction; the first construction order per type inside one process is fixed by the generator, "
+        "a cache warmed before the check starts is not controlled)."
     ),
     "rule": (
         "A case is an ordered pair (i<j) of attribute (or op) objects inside one group; every recipe of a group is "
@@ -53,7 +56,11 @@ META = {
         "hash-colliding values (-1/-2, multiples of 2^61-1), str/bytes incl. PEP 393 widths, arrays, dictionaries "
         "(permuted insertion orders), dense arrays/elements, symbol refs, types, unregistered attributes, builtin "
         "texts and corpus attribute texts parsed in fresh Contexts, random recipe trees with single-leaf mutations, "
-        "and generated op families for OperationInfo."
+        "and generated op families for OperationInfo. Every float type class of the builtin dialect (f16 … f128, tf32, all "
+        "f8*/f6*/f4*) is enumerated: FloatAttr via constructor and via parser (decimal / hex literals) with both signed "
+        "zeros in both construction orders (which zero and which route is first in the process alternates per type), "
+        "reserved encodings, overflow/underflow parameters; dense arrays / dense elements over each element type via "
+        "from_list, list literals and hex strings."
     ),
     "trusted_base": [
         "correspondence harness harness/props/c08.py (encoder of attribute objects into model terms; all-pairs differential)",
@@ -72,6 +79,17 @@ FLOATDATA_HASH = "xdsl.dialects.builtin.FloatData.__hash__"
 UNREG = "xdsl.dialects.builtin.UnregisteredAttr.with_name_and_type"
 OPINFO = "xdsl.transforms.common_subexpression_elimination.OperationInfo"
 RESOURCE = "xdsl.dialect_interfaces.op_asm.OpAsmDialectInterface.declare_resource"
+FLOATATTR_INIT = "xdsl.dialects.builtin.FloatAttr.__init__"
+CONSTRUCTOR_OF = {
+    "dense": "xdsl.dialects.builtin.DenseIntOrFPElementsAttr.from_list",
+    "densearr": "xdsl.dialects.builtin.DenseArrayBase.from_list",
+    "float": FLOATATTR_INIT,
+    "floattext": "xdsl.parser.attribute_parser.AttrParser.parse_optional_builtin_int_or_float_attr",
+    "parse": "xdsl.parser.attribute_parser.AttrParser.parse_attribute",
+    "array": "xdsl.dialects.builtin.ArrayAttr.__init__",
+    "dict": "xdsl.dialects.builtin.DictionaryAttr.__init__",
+    "bytes": "xdsl.dialects.builtin.BytesAttr",
+}
 
 # ---------------------------------------------------------------------------------------------
 # floats as bit patterns
@@ -166,6 +184,9 @@ def parse_attr_fresh(text: str):
 
     p = Parser(fresh_context(), text)
     a = p.parse_attribute()
+    tok = getattr(p, "_current_token", None)
+    if tok is not None and getattr(tok.kind, "name", "EOF") != "EOF":
+        raise ValueError(f"attribute text not consumed entirely: {text!r}")
     return a
 
 
@@ -181,6 +202,10 @@ def build(r: Any):
     if k in ("f16", "bf16", "f32", "f64", "f80", "f128"):
         return {"f16": b.Float16Type, "bf16": b.BFloat16Type, "f32": b.Float32Type, "f64": b.Float64Type,
                 "f80": b.Float80Type, "f128": b.Float128Type}[k]()
+    if k == "fty":
+        return getattr(b, r[1])()
+    if k == "floattext":
+        return parse_attr_fresh(f"{r[1]} : {getattr(b, r[2])().name}")
     if k == "nonetype":
         return b.NoneType()
     if k == "tensor":
@@ -231,6 +256,155 @@ def build(r: Any):
     if k == "parse":
         return parse_attr_fresh(r[1])
     raise core.InfraError(f"unknown recipe {r!r}")
+
+
+_FLOAT_TYPES: list[tuple[str, Any]] | None = None
+
+
+def builtin_float_types() -> list[tuple[str, Any]]:
+    """(class name, instance) of every concrete float type class the builtin dialect defines;
+    classes that cannot be instantiated without arguments are skipped."""
+    global _FLOAT_TYPES
+    if _FLOAT_TYPES is None:
+        import inspect
+
+        from xdsl.dialects import builtin as b
+
+        base = getattr(b, "_FloatType", None) or b.AnyFloat
+        out = []
+        for name, c in sorted(vars(b).items()):
+            if inspect.isclass(c) and name == c.__name__ and inspect.isclass(base) and issubclass(c, base) and not inspect.isabstract(c):
+                try:
+                    out.append((name, c()))
+                except Exception:  # noqa: BLE001
+                    continue
+        _FLOAT_TYPES = out
+    return _FLOAT_TYPES
+
+
+def float_type_recipe(name: str) -> list[Any]:
+    short = {"Float16Type": "f16", "BFloat16Type": "bf16", "Float32Type": "f32", "Float64Type": "f64",
+             "Float80Type": "f80", "Float128Type": "f128"}
+    return [short[name]] if name in short else ["fty", name]
+
+
+def rounds_on_construction(ty: Any) -> bool:
+    from xdsl.dialects import builtin as b
+
+    kinds = [b.Float64Type, b.Float32Type, b.Float16Type, b.BFloat16Type]
+    if hasattr(b, "ReducedPrecisionFloatType"):
+        kinds.append(b.ReducedPrecisionFloatType)
+    return isinstance(ty, tuple(kinds))
+
+
+def type_pattern_values(ty: Any, thorough: bool) -> list[int]:
+    """f64 bit patterns of the values of interesting bit patterns of a reduced-precision type
+    (both zeros, smallest/largest subnormal and normal, one, the reserved encodings), decoded by the
+    type's own `unpack`."""
+    sem = getattr(ty, "SEMANTICS", None)
+    if sem is None:
+        return []
+    w = ty.bitwidth
+    size = ty.compile_time_size
+    m, e = sem.mantissa_bits, sem.exponent_bits
+    maxm, maxe = (1 << m) - 1, (1 << e) - 1
+    mags = {0, 1, 2, maxm, maxm + 1, (sem.exponent_bias << m) & ((1 << (m + e)) - 1), ((sem.exponent_bias << m) + 1) & ((1 << (m + e)) - 1),
+            maxe << m, (maxe << m) | 1, (maxe << m) | (maxm >> 1) + 1 if m else maxe << m, (maxe << m) | maxm, ((maxe << m) | maxm) - 1,
+            ((maxe - 1) << m) | maxm}
+    if thorough and w <= 8:
+        mags = set(range(1 << (m + e)))
+    pats = set()
+    for p in mags:
+        p &= (1 << (m + e)) - 1
+        pats.add(p)
+        if sem.has_sign:
+            pats.add(p | (1 << (m + e)))
+    out = []
+    for p in sorted(pats):
+        try:
+            v = ty.unpack(p.to_bytes(size, "little"), 1)[0]
+        except Exception:  # noqa: BLE001
+            continue
+        out.append(bits_of(v))
+    return out
+
+
+def expected_float(r: Any) -> tuple[Any, float] | None:
+    """(type, value the attribute must hold) for a float recipe, recomputed through the type's own
+    pack/unpack (no shared state); None when not applicable or the parameters are rejected."""
+    try:
+        if r[0] == "float":
+            ty = build(r[2])
+            x = float_of(int(r[1], 16))
+        elif r[0] == "floattext":
+            from xdsl.dialects import builtin as b
+
+            ty = getattr(b, r[2])()
+            lit = r[1]
+            if lit[:2].lower() == "0x":
+                x = ty.unpack(int(lit, 16).to_bytes(ty.compile_time_size, "little"), 1)[0]
+            else:
+                x = float(lit)
+        else:
+            return None
+        if rounds_on_construction(ty):
+            x = ty.unpack(ty.pack((x,)), 1)[0]
+        return ty, x
+    except Exception:  # noqa: BLE001
+        return None
+
+
+def type_encoding(ty: Any, x: float) -> str | None:
+    try:
+        return bytes(ty.pack((x,))).hex()
+    except Exception:  # noqa: BLE001
+        return None
+
+
+MUTABLE = (bytearray, list, dict, set)
+# float recipes built so far in this process, per float type (construction history for replays)
+_BUILT_FLOATS: dict[str, list[Any]] = {}
+
+
+def float_history_key(r: Any) -> str | None:
+    if r[0] == "float":
+        return str(r[2])
+    if r[0] == "floattext":
+        return str(float_type_recipe(r[2]))
+    return None
+
+
+def find_mutable(o: Any, depth: int = 0) -> tuple[Any, Any] | None:
+    """(holder, payload) of the first payload container that is not an immutable value"""
+    if depth > 40:
+        return None
+    if dataclasses.is_dataclass(o) and not isinstance(o, type):
+        kids = [getattr(o, f.name) for f in dataclasses.fields(o)]
+    elif isinstance(o, (tuple, frozenset)):
+        kids = list(o)
+    elif isinstance(o, Mapping):
+        kids = list(o.values())
+    else:
+        return None
+    for k in kids:
+        if type(k) in MUTABLE:
+            return o, k
+        hit = find_mutable(k, depth + 1)
+        if hit is not None:
+            return hit
+    return None
+
+
+def history_before(r: Any) -> list[Any]:
+    """the first float attributes of the same type built in this process before `r` (what a
+    construction cache would have seen), shortest prefix first"""
+    h = _BUILT_FLOATS.get(float_history_key(r) or "", [])
+    k = h.index(r) if r in h else len(h)
+    return h[:k][:4]
+
+
+def constructor_of(r: Any) -> str:
+    return CONSTRUCTOR_OF.get(r[0], "xdsl.ir.core.Attribute")
 
 
 # ---------------------------------------------------------------------------------------------
@@ -536,13 +710,73 @@ def eval_group(ctx: core.Ctx, label: str, recipes: list[Any], batch: Batch) -> N
         objs += [a1, a2]
         recs += [r, r]
         twin += [i + 1, i]
+        hk = float_history_key(r)
+        if hk is not None:
+            _BUILT_FLOATS.setdefault(hk, []).append(r)
     n = len(objs)
     if n == 0:
         return
     ctx.count(f"group.{label}")
     ctx.count("objects", n)
-    H = [hash(o) for o in objs]
-    E = [[bool(objs[i] == objs[j]) for j in range(n)] for i in range(n)]
+    # attributes are immutable, hashable values: no mutable payload containers, hash()/== never raise
+    broken: set[int] = set()
+    for i, o in enumerate(objs):
+        hit = find_mutable(o)
+        if hit is not None and twin[i] > i:
+            holder, payload = hit
+            ctx.fail(constructor_of(recs[i]), f"mutable {type(payload).__name__} payload in {type(holder).__name__}",
+                     {"kind": "attr_value", "a": recs[i], "check": "immutable-payload"},
+                     f"the attribute holds a {type(payload).__name__} (mutable, unhashable) where an immutable bytes/tuple value is required",
+                     {"a": describe(o), "holder": qual(type(holder)), "payload_type": type(payload).__name__}, "immutable payload (bytes / tuple / immutabledict)")
+    H: list[Any] = []
+    for i, o in enumerate(objs):
+        try:
+            H.append(hash(o))
+        except Exception as e:  # noqa: BLE001
+            H.append(None)
+            broken.add(i)
+            hit = find_mutable(o)
+            why = f"{type(hit[1]).__name__} payload in {type(hit[0]).__name__}" if hit else "unhashable"
+            if twin[i] > i:
+                ctx.fail(constructor_of(recs[i]), f"hash() raises {core.exc_name(e)}: {why}",
+                         {"kind": "attr_value", "a": recs[i], "check": "hashable"},
+                         f"hash(attribute) raises {core.exc_name(e)}: equal attributes cannot have equal hashes, the attribute cannot key a dict/set (CSE, constraint sets)",
+                         {"a": describe(o), "exception": f"{core.exc_name(e)}: {e}"[:200]}, "hash() returns an int")
+    E = []
+    for i in range(n):
+        row = []
+        for j in range(n):
+            try:
+                row.append(bool(objs[i] == objs[j]))
+            except Exception as e:  # noqa: BLE001
+                row.append(False)
+                if i <= j:
+                    ctx.fail(qual(type(objs[i])) + ".__eq__", f"== raises {core.exc_name(e)}", pair_case(recs[i], recs[j], {"check": "eq-total"}),
+                             "comparing two attributes raises", {"exception": f"{core.exc_name(e)}: {e}"[:200]}, "== returns a bool")
+        E.append(row)
+    # the value a float attribute must hold, recomputed from its parameters through the type's own
+    # encoding: independent of anything built before in this process
+    XP: list[Any] = [None] * n
+    for i in range(n):
+        xp = expected_float(recs[i]) if recs[i][0] in ("float", "floattext") else None
+        if xp is None:
+            continue
+        ty, want = xp
+        try:
+            have = objs[i].value.data
+            hb, wb = bits_of(have), bits_of(want)
+        except Exception:  # noqa: BLE001
+            continue
+        XP[i] = (qual(type(ty)), wb, type_encoding(ty, want))
+        if hb != wb:
+            zero = (hb | wb) == 1 << 63
+            ctx.fail(FLOATATTR_INIT, "0.0 / -0.0 parameter stored with the other sign" if zero else "stored value is not the rounding of the parameter",
+                     {"kind": "attr_value", "a": recs[i], "check": "float-payload", "built_before": history_before(recs[i])},
+                     "the attribute built from these parameters holds a different value than the type's pack/unpack gives for them "
+                     "(depends on what was built before in the process)",
+                     {"a": describe(objs[i]), "held_f64_bits": hx(hb), "held_type_encoding": type_encoding(ty, have),
+                      "expected_f64_bits": hx(wb), "expected_type_encoding": type_encoding(ty, want)},
+                     "value == type.unpack(type.pack(parameter))")
     NT = [safe_term(nenc, o) for o in objs]
     MT = [safe_term(menc, o) for o in objs]
     for o, t in zip(objs, MT):
@@ -583,7 +817,7 @@ def eval_group(ctx: core.Ctx, label: str, recipes: list[Any], batch: Batch) -> N
                 fail_pair(i, j, "unequal-same-construction",
                           "two attributes built from the same parameters / parsed from the same text are not equal",
                           "equal (same construction parameters)")
-            elif H[i] != H[j]:
+            elif H[i] != H[j] and i not in broken and j not in broken:
                 fail_pair(i, j, "hash-differs", "attributes built from the same parameters are equal but hash differently",
                           "hash(a) == hash(b) because a == b")
     for i in range(n):
@@ -592,6 +826,15 @@ def eval_group(ctx: core.Ctx, label: str, recipes: list[Any], batch: Batch) -> N
             if E[i][j] != E[j][i]:
                 ctx.fail(qual(type(objs[i])) + ".__eq__", "not symmetric", pair_case(recs[i], recs[j], {"check": "symmetric"}),
                          "a == b differs from b == a", {"a==b": E[i][j], "b==a": E[j][i]}, "a == b iff b == a")
+            if E[i][j] and XP[i] is not None and XP[j] is not None and XP[i][0] == XP[j][0] and XP[i][1:] != XP[j][1:]:
+                x, y = XP[i][1], XP[j][1]
+                sig = ("0.0 and -0.0 compare equal" if (x | y) == 1 << 63 and x != y else
+                       "float attributes built from observably different parameters compare equal")
+                ctx.fail(FLOATATTR_INIT, sig, pair_case(recs[i], recs[j], {"check": "equal-but-distinct-parameters"}),
+                         "two float attributes of one type whose parameters encode differently in that type compare equal",
+                         {"a": describe(objs[i]), "b": describe(objs[j]), "encoding_a": XP[i][2], "encoding_b": XP[j][2]}, "a != b")
+            if i in broken or j in broken:
+                continue
             if E[i][j] and H[i] != H[j] and j != twin[i]:
                 fail_pair(i, j, "hash-differs", "equal attributes hash differently", "hash(a) == hash(b) because a == b")
             if E[i][j] and NT[i] is not None and NT[j] is not None and NT[i] != NT[j]:
@@ -618,7 +861,7 @@ def eval_group(ctx: core.Ctx, label: str, recipes: list[Any], batch: Batch) -> N
     batch.impl.append("ok")
     batch.origin.append(None)
     for i in range(n):
-        if MT[i] is None:
+        if MT[i] is None or i in broken:
             continue
         idx[i] = len(idx)
         batch.lines.append("def " + MT[i])
@@ -776,6 +1019,74 @@ def fixed_groups() -> list[tuple[str, list[Any]]]:
     for k in range(0, len(texts), 26):
         g.append((f"parse.builtin_texts.{k // 26}", [["parse", t] for t in texts[k:k + 26]]))
     return g
+
+
+def float_type_groups(thorough: bool) -> list[tuple[str, list[Any]]]:
+    """Every float type class of the builtin dialect: FloatAttr through the constructor and through the
+    parser (decimal and hexadecimal literals), both signed zeros in both construction orders
+    (alternating per type which zero and which route comes first in the process), NaN / infinity /
+    overflow / underflow parameters, the reserved bit patterns of the reduced-precision encodings;
+    dense arrays and dense elements over the same element types via from_list, list literals and
+    hex strings."""
+    g: list[tuple[str, list[Any]]] = []
+    pz, nz = 0, 1 << 63
+    extras = [0x3FF0000000000000, 0xBFF0000000000000, 0x7FF8000000000000, 0xFFF8000000000000, 0x7FF0000000000000, 0xFFF0000000000000,
+              0x3FB999999999999A, 0x41CDCD6500000000, 0xC1CDCD6500000000, 0x39B4484BFEEBC2A0, 0xB9B4484BFEEBC2A0, 0x4000000000000000,
+              0x3FF8000000000000, 0x0000000000000001]
+    inter_a: list[Any] = []
+    inter_b: list[Any] = []
+    dense_groups: list[tuple[str, list[Any]]] = []
+    for idx, (name, ty) in enumerate(builtin_float_types()):
+        tr = float_type_recipe(name)
+        tn = ty.name
+        zeros = [pz, nz] if idx % 2 == 0 else [nz, pz]
+        vals: list[int] = []
+        for b in zeros + type_pattern_values(ty, thorough) + extras:
+            if b not in vals:
+                vals.append(b)
+        ctor = [["float", hx(b), tr] for b in vals]
+        w = ty.bitwidth
+        lits = (["0.0", "-0.0"] if idx % 4 == 2 else ["-0.0", "0.0"]) + ["1.0", "-1.0", "1.5", "0.1", "1.0e9", "-1.0e9", "1.0e-30", "0x0"]
+        if w <= 64:
+            lits += [hex(1 << (w - 1)), hex((1 << w) - 1), hex((1 << (w - 1)) - 1), hex(1), hex((1 << (w - 1)) | 1)]
+        text = [["floattext", lit, name] for lit in lits]
+        both = [["float", hx(b), tr] for b in zeros + extras[:6]]
+        if idx % 4 >= 2:   # the parser sees this type's zeros first
+            g.append((f"floattype.parse.{tn}", text + both))
+            for k in range(0, len(ctor), 44):
+                g.append((f"floattype.ctor.{tn}", ctor[k:k + 44]))
+        else:
+            for k in range(0, len(ctor), 44):
+                g.append((f"floattype.ctor.{tn}", ctor[k:k + 44]))
+            g.append((f"floattype.parse.{tn}", text + both))
+        inter_a += [["float", hx(pz), tr]]
+        inter_b += [["float", hx(nz), tr]]
+        # dense attributes over this element type
+        one, two, nan = hx(0x3FF0000000000000), hx(0x4000000000000000), hx(0x7FF8000000000000)
+        zp, zn = hx(pz), hx(nz)
+        d: list[Any] = [["densearr", tr, v] for v in ([], [zp], [zn], [zp, zn], [zn, zp], [one], [one, two], [two, one], [nan])]
+        d += [["dense", ["tensor", [2], tr], v] for v in ([zp], [zn], [zp, zn], [zn, zp], [one, two], [one], [nan])]
+        d += [["dense", ["vector", [2], tr], [one, two]]]
+        d += [["parse", t] for t in (f"dense<[1.0, 2.0]> : tensor<2x{tn}>", f"dense<[0.0, -0.0]> : tensor<2x{tn}>", f"dense<[-0.0, 0.0]> : tensor<2x{tn}>",
+                                     f"dense<-0.0> : tensor<2x{tn}>", f"dense<0.0> : tensor<2x{tn}>", f"dense<1.0> : tensor<2x{tn}>",
+                                     f"array<{tn}: 1.0, 2.0>", f"array<{tn}: 0.0, -0.0>", f"array<{tn}: -0.0>", f"array<{tn}>")]
+        try:
+            size = ty.compile_time_size
+            enc12 = bytes(ty.pack((1.0, 2.0))).hex()
+            enc1 = bytes(ty.pack((1.0,))).hex()
+            raw = ((1 << (w - 1)).to_bytes(size, "little") + ((1 << w) - 1).to_bytes(size, "little")).hex() if w <= 64 else None
+            d += [["parse", f'dense<"0x{enc12}"> : tensor<2x{tn}>'], ["parse", f'dense<"0x{enc1}"> : tensor<2x{tn}>'],
+                  ["parse", f'dense<"0x{"00" * (2 * size)}"> : tensor<2x{tn}>']]
+            if raw:
+                d += [["parse", f'dense<"0x{raw}"> : tensor<2x{tn}>']]
+        except Exception:  # noqa: BLE001
+            pass
+        dense_groups.append((f"floattype.dense.{tn}", d))
+    # zeros of all types interleaved: +0 of T1, -0 of T2, ... then the opposite signs
+    mix = [x for pair in zip(inter_a[0::2], inter_b[1::2]) for x in pair] + [x for pair in zip(inter_b[0::2], inter_a[1::2]) for x in pair]
+    for k in range(0, len(mix), 40):
+        g.append(("floattype.zeros.interleaved", mix[k:k + 40]))
+    return g + dense_groups
 
 
 LEAF_POOL: list[Any] = (
@@ -1268,6 +1579,10 @@ def run(ctx: core.Ctx) -> None:
     for label, recs in fixed_groups():
         eval_group(ctx, label, recs, batch)
     flush()
+    ctx.count("float_type_classes", len(builtin_float_types()))
+    for label, recs in float_type_groups(not quick):
+        eval_group(ctx, label, recs, batch)
+    flush()
     for label, recs in op_groups(ctx.rng, 12 if quick else 400):
         eval_op_group(ctx, label, recs, batch)
     flush()
@@ -1307,6 +1622,39 @@ def replay(ctx: core.Ctx, body: dict) -> int:
         if "a" not in case:
             return 1
     bad = False
+    if kind == "attr_value":
+        for r in case.get("built_before", []):
+            try:
+                build(r)
+            except Exception:  # noqa: BLE001
+                pass
+        if case.get("built_before"):
+            print("built first (history):", case["built_before"])
+        a = build(case["a"])
+        print(f"attribute a: recipe={case['a']}  printed={describe(a)}")
+        hit = find_mutable(a)
+        if hit is not None:
+            print(f"      mutable payload: {type(hit[1]).__name__} held by {qual(type(hit[0]))}")
+            bad = True
+        try:
+            print("      hash(a) =", hash(a))
+        except Exception as e:  # noqa: BLE001
+            print(f"      hash(a) raises {core.exc_name(e)}: {e}")
+            bad = True
+        try:
+            print("      a == rebuilt a:", a == build(case["a"]))
+        except Exception as e:  # noqa: BLE001
+            print(f"      == raises {core.exc_name(e)}: {e}")
+            bad = True
+        xp = expected_float(case["a"]) if case["a"][0] in ("float", "floattext") else None
+        if xp is not None:
+            ty, want = xp
+            have = a.value.data
+            print(f"      held value bits {hx(bits_of(have))} (type encoding {type_encoding(ty, have)}); "
+                  f"type.unpack(type.pack(parameter)) bits {hx(bits_of(want))} (type encoding {type_encoding(ty, want)})")
+            bad |= bits_of(have) != bits_of(want)
+        print("property", "FAILS" if bad else "holds", "on this case")
+        return 1 if bad else 0
     if kind in ("op_pair", "op_triple"):
         from xdsl.transforms.common_subexpression_elimination import OperationInfo
 
@@ -1349,6 +1697,13 @@ def replay(ctx: core.Ctx, body: dict) -> int:
                     same = safe_term(nenc, objs[x]) == safe_term(nenc, objs[y])
                     print(f"{x} == {y}: {e}; {y} == {x}: {objs[y] == objs[x]}; hashes equal: {h}; payloads identical: {same}")
                     bad |= (e and not h) or (e and not same) or (case[x] == case[y] and not (e and h)) or (e != (objs[y] == objs[x]))
+                    xa = expected_float(case[x]) if case[x][0] in ("float", "floattext") else None
+                    xb = expected_float(case[y]) if case[y][0] in ("float", "floattext") else None
+                    if xa is not None and xb is not None and qual(type(xa[0])) == qual(type(xb[0])):
+                        ea, eb = type_encoding(xa[0], xa[1]), type_encoding(xb[0], xb[1])
+                        print(f"      parameters encode in the type as {ea} / {eb}; held values encode as "
+                              f"{type_encoding(xa[0], objs[x].value.data)} / {type_encoding(xb[0], objs[y].value.data)}")
+                        bad |= e and (ea != eb or bits_of(xa[1]) != bits_of(xb[1]))
                     if terms[x] is not None and terms[y] is not None:
                         m = ctx.model("attr_value", ["reset", "def " + terms[x], "def " + terms[y], "cmp 0 1"])
                         print(f"      lean model of the fixed semantics: {m[-1]}")
